@@ -11,7 +11,7 @@ CFG = {
             "NFSProcedureHandler.HandleCall, real clock): a sequential set-up (MNT, shared directory, pre-created files), then 2-4 "
             "client goroutines x 3-8 requests, seeded schedule noise (yield / 1-40 us / 60-540 us / 0.3-3 ms stalls) before AND "
             "after every backend call; 4 schedule seeds per generated history; every request stamped on a global atomic logical "
-            "clock before invocation and after the response; 20 s deadlock watchdog; after quiescence: backend dump, handle table, "
+            "clock before invocation and after the response; 20 s deadlock watchdog (a deadlocked history is recorded with the requests invoked and answered so far, its server is never touched again, later random histories get a 3 s watchdog, after three deadlocks or 6 min (quick) only empty place-holders are emitted); after quiescence: backend dump, handle table, "
             "cache sizes, goroutine count, and a sequential probe round (LOOKUP+GETATTR of every known name, READDIR and "
             "READDIRPLUS of every directory) on the server and on a fresh twin server over a copy of the final backend state. "
             "Stream C29 (distinct names): each client works on its own names (CREATE WRITE READ SETATTR REMOVE RENAME SYMLINK "
